@@ -10,6 +10,7 @@ import (
 	"bufio"
 	"context"
 	"fmt"
+	"net"
 	"runtime"
 	"strings"
 	"sync"
@@ -54,6 +55,10 @@ type c15Scen struct {
 	Stalled  int         `json:"stalled_reader_v"` // 0 none; 4/5: a subscriber of that version stops reading, is flooded, then taken over
 	StopAt   int         `json:"stop_at_pct"`      // Stop when this share of the client operations is done (100 = after the workload)
 	MaxProcs int         `json:"gomaxprocs"`
+	// AcceptDelayUs: an OnAccept hook that takes this long (a user hook may be slow); LateDials connections are opened
+	// while Stop is running - each must end up closed, whether it was refused, or accepted and then shut down
+	AcceptDelayUs int `json:"accept_delay_us,omitempty"`
+	LateDials     int `json:"late_dials,omitempty"`
 }
 
 var c15Topics = []string{"c/a", "c/b", "c/a/x", "$sys/z"}
@@ -62,7 +67,8 @@ var c15Filters = []string{"c/a", "c/+", "c/#", "#", "$share/g/c/a", "$sys/#"}
 func genC15(t *rapid.T) c15Scen {
 	s := c15Scen{Idle: rapid.IntRange(0, 2).Draw(t, "idle"), BadAuth: rapid.IntRange(0, 2).Draw(t, "bad"),
 		StopAt: rapid.SampledFrom([]int{30, 60, 100, 100}).Draw(t, "stopat"), MaxProcs: rapid.SampledFrom([]int{2, 4, 16}).Draw(t, "procs"),
-		Stalled: rapid.SampledFrom([]int{0, 0, 0, 4, 5}).Draw(t, "stalled")}
+		Stalled:       rapid.SampledFrom([]int{0, 0, 0, 4, 5}).Draw(t, "stalled"),
+		AcceptDelayUs: rapid.SampledFrom([]int{0, 0, 200, 2000}).Draw(t, "accept_delay"), LateDials: rapid.SampledFrom([]int{0, 3, 8}).Draw(t, "late_dials")}
 	n := rapid.IntRange(4, 12).Draw(t, "nclients")
 	for i := 0; i < n; i++ {
 		cl := c15Client{ID: rapid.IntRange(0, 4).Draw(t, "id"), V: rapid.SampledFrom([]int{4, 5}).Draw(t, "v"), Clean: rapid.Bool().Draw(t, "clean"),
@@ -115,6 +121,12 @@ func runC15(s c15Scen, c *ev.Case) *ev.Violation {
 	var mu sync.Mutex
 	var panics []string
 	hooks := &server.Hooks{
+		OnAccept: func(ctx context.Context, conn net.Conn) bool {
+			if s.AcceptDelayUs > 0 {
+				time.Sleep(time.Duration(s.AcceptDelayUs) * time.Microsecond)
+			}
+			return true
+		},
 		OnBasicAuth: func(ctx context.Context, client server.Client, req *server.ConnectRequest) error {
 			if string(req.Connect.Username) == "bad" {
 				return fmt.Errorf("bad user")
@@ -415,6 +427,24 @@ func runC15(s c15Scen, c *ev.Case) *ev.Violation {
 	stopping.Store(true)
 	stopErr := make(chan error, 1)
 	t0 := time.Now()
+	if s.LateDials > 0 {
+		c.Label("connections_opened_during_stop")
+		wg.Add(1)
+		go func() {
+			defer wg.Done()
+			name, lvl := mw.ProtoFor(mw.V311)
+			for k := 0; k < s.LateDials; k++ {
+				conn, err := b.DialConn()
+				if err != nil {
+					return // the listener is closed
+				}
+				cl := fixture.NewClient(conn, fmt.Sprintf("late%d", k), mw.V311)
+				track(cl)
+				_ = cl.Send(&mw.Packet{Type: mw.CONNECT, ProtoName: name, ProtoLevel: lvl, ClientID: cl.ID, CleanStart: true})
+				time.Sleep(100 * time.Microsecond)
+			}
+		}()
+	}
 	go func() { stopErr <- b.StopWithin(c15Wait) }()
 	var serr error
 	select {
@@ -534,6 +564,6 @@ func runC15(s c15Scen, c *ev.Case) *ev.Violation {
 }
 
 func TestC15Stress(t *testing.T) {
-	ev.SetRule("C15", "randomised stress under -race: 4-12 scripted clients over a pool of 5 client ids (same-id take-over storms), v3.1.1/v5, clean or not, wills (immediate / 1 s delay), acknowledging or not, scripts of subscribe / publish QoS0-2 / unsubscribe / ping / kill+reconnect / take-over / disconnect; 0-2 sockets that never CONNECT, 0-2 rejected CONNECTs that stay open; 1-3 API goroutines (Publisher.Publish, SubscriptionService.Subscribe/Unsubscribe/Iterate, ClientService.TerminateSession/IterateClient/GetClient, statistics reads); GOMAXPROCS 2/4/16; Stop after 30/60/100 % of the client operations. Oracles: no race report, no recovered panic, every request answered or its connection closed within 10 s, every API call returns within 10 s, Stop returns nil within 10 s, then no new connection is served, every socket reads EOF within 2 s, plugin Unload and OnStop ran exactly once, and 2.5 s later no goroutine has a gmqtt/server.(*client) or (*server) frame. Non-trivial: >=3 clients and >=1 API goroutine; schedules are sampled.")
+	ev.SetRule("C15", "randomised stress under -race: 4-12 scripted clients over a pool of 5 client ids (same-id take-over storms), v3.1.1/v5, clean or not, wills (immediate / 1 s delay), acknowledging or not, scripts of subscribe / publish QoS0-2 / unsubscribe / ping / kill+reconnect / take-over / disconnect; 0-2 sockets that never CONNECT, 0-2 rejected CONNECTs that stay open; 1-3 API goroutines (Publisher.Publish, SubscriptionService.Subscribe/Unsubscribe/Iterate, ClientService.TerminateSession/IterateClient/GetClient, statistics reads); GOMAXPROCS 2/4/16; an OnAccept hook taking 0/0.2/2 ms; Stop after 30/60/100 % of the client operations, with 0/3/8 further connections opened while Stop is running. Oracles: no race report, no recovered panic, every request answered or its connection closed within 10 s, every API call returns within 10 s, Stop returns nil within 10 s, then no new connection is served, every socket reads EOF within 2 s, plugin Unload and OnStop ran exactly once, and 2.5 s later no goroutine has a gmqtt/server.(*client) or (*server) frame. Non-trivial: >=3 clients and >=1 API goroutine; schedules are sampled.")
 	ev.Run(t, "C15", genC15, runC15)
 }
